@@ -49,6 +49,11 @@ pub struct InstView {
     pub crossed_load: bool,
     /// this graph (or an ancestor) came out of clone()
     pub crossed_clone: bool,
+    /// some load() in the ancestry returned a graph whose complete internal state (hook snapshot,
+    /// allocator position aside) differed from the saved one: only then may load() be blamed
+    pub suspect_load: bool,
+    /// likewise for clone(): the copy's snapshot differed from the original's
+    pub suspect_clone: bool,
     /// every basic operation that led to this state, merges and scripts flattened into
     /// the add/bind/put calls they stand for (used to decide whose fault a divergence is)
     pub oplog: Vec<LogOp>,
@@ -73,6 +78,9 @@ pub struct SavedState {
     pub crossed_clone: bool,
     pub merged: bool,
     pub readd_seen: bool,
+    pub suspect_load: bool,
+    pub suspect_clone: bool,
+    pub snap: Option<sodg::verif::Snapshot>,
 }
 
 #[derive(Clone, Debug, Default)]
